@@ -71,10 +71,14 @@ class Bag(object):
         """Add a type to the bag. If multiple types are given, the union of 
         these types is added."""
 
-        # Any disjuncts that are covered already by other types in the bag can 
-        # be dropped
-        new = TypeUnion(nt for nt in new_types
-            if not any(t.is_subtype(nt) for t in self.content))
+        # If any disjunct is covered already by other types in the bag, then
+        # the disjunction as a whole is implied and adds nothing
+        if any(t.is_subtype(nt) for nt in new_types for t in self.content):
+            return
+
+        # Since supertypes of present types are present too, a disjunction is
+        # equivalent to its most general disjuncts
+        new = TypeUnion(new_types, specific=False)
 
         if not new:
             return
